@@ -130,12 +130,10 @@ def static_witnesses(res):
         res.violation('site:%s@%s' % (s['field'], s['pos']),
                       'access site %s of %s in %s (%s, locks held %s) is not admitted by the protection policy of the field' % (s['pos'], s['field'], s['func'], s['kind'], s['held']),
                       'input', True, case=['sites-nonconforming'], expected=['none'], observed=[s['raw']])
-    for s in parse_sites(exc):
-        res.count('policy-exception')
-        key = 'site:%s@%s' % (s['field'], s['pos'])
-        before = len(res.known_hits)
-        res.violation(key, 'access site %s of %s in %s is outside the lock discipline (listed in RacePolicy.exceptions; argued benign there)' % (s['pos'], s['field'], s['func']),
-                      'input', True, case=['sites-exceptions'], expected=['none'], observed=[s['raw']])
+    # sites the lock discipline cannot express but that are ordered for a reason argued in RacePolicy.exceptions
+    # (fork + hand-off under the lock): part of the policy, recorded in the evidence, not a finding
+    res.extra['policy_exceptions'] = [s['raw'] for s in parse_sites(exc)]
+    res.count('policy-exception', len(parse_sites(exc)))
     if calls not in ('none', ''):
         for tok in calls.split(' '):
             res.count('nonconforming-call')
